@@ -32,15 +32,36 @@ def render(c, keymap):
         args = [name, k, v]
     elif name in ("INCRBY", "DECRBY"):
         args = [name, k, str(c["d"])]
-    elif name == "EXPIRE":
+    elif name in ("EXPIRE", "PEXPIRE"):
         args = [name, k, str(c["d"])]
+    elif name == "EXPIREAT":
+        args = [name, k, "@s+%d" % c["d"]]          # the driver turns it into wall-clock now + n (seconds)
+    elif name == "PEXPIREAT":
+        args = [name, k, "@ms+%d" % c["d"]]
+    elif name in ("SETEX", "PSETEX"):
+        args = [name, k, str(c["d"]), v]
+    elif name == "SET_EX":
+        args = ["SET", k, v, "EX", str(c["d"])]
+    elif name == "SET_PX":
+        args = ["SET", k, v, "PX", str(c["d"])]
+    elif name == "SET_NX":
+        args = ["SET", k, v, "NX"]
+    elif name == "SET_XX":
+        args = ["SET", k, v, "XX"]
+    elif name == "SET_NX_TX":
+        args = ["SET", k, v, "NX", "TX", str(c["d"])]
+    elif name == "SET_NX_PTX":
+        args = ["SET", k, v, "NX", "PTX", str(c["d"])]
     elif name == "PERSIST3":
         args = ["PERSIST", k, "0"]        # the argument shape protocol/textcommand.go insists on
     elif name == "TICK":
         args = ["TICK", str(c["d"])]
     else:
         args = [name, k]
-    return {"args": args, "c": name, "k": c["k"], "v": list(c["v"]), "d": c["d"]}
+    r = {"args": args, "c": name, "k": c["k"], "v": list(c["v"]), "d": c["d"]}
+    if name in ("SET_NX_TX", "SET_NX_PTX"):
+        r["maxticks"] = 100
+    return r
 
 def to_scenario(name, hist, idx, timeout=0):
     keymap = {m: f"{m}x{idx}" for m in ("k1", "k2", "k3")}
@@ -79,7 +100,7 @@ def gen_random(seed, i, dev):
         if name == "EXPIRE":
             d = 3
         if name == "TICK":
-            d, k = 6, "k1"
+            d, k = 8, "k1"
         hist.append(cmd(name, k, val if name in ("SET", "GETSET", "SETNX", "APPEND") else b"", d))
         if name in ("SET", "GETSET"):
             shadow[k] = "s"
@@ -102,12 +123,57 @@ def directed():
         ("rd-basic", [cmd("SET", "k1", A), cmd("GET", "k1"), cmd("APPEND", "k1", B), cmd("GET", "k1"), cmd("STRLEN", "k1"), cmd("EXISTS", "k1"),
                       cmd("GETSET", "k1", B), cmd("GET", "k1"), cmd("DEL", "k1"), cmd("GET", "k1"), cmd("EXISTS", "k1"), cmd("DEL", "k1")], 0),
         ("rd-counter", [cmd("INCR", "k1"), cmd("INCRBY", "k1", d=41), cmd("DECR", "k1"), cmd("DECRBY", "k1", d=100), cmd("GET", "k1"), cmd("STRLEN", "k1"), cmd("DEL", "k1"), cmd("DECR", "k1")], 0),
-        ("rd-expire", [cmd("SET", "k1", A), cmd("EXPIRE", "k1", d=3), cmd("GET", "k1"), cmd("TICK", "k1", d=6), cmd("GET", "k1"), cmd("EXISTS", "k1"),
-                       cmd("SET", "k1", B), cmd("EXPIRE", "k1", d=3), cmd("PERSIST3", "k1"), cmd("TICK", "k1", d=6), cmd("GET", "k1"), cmd("DEL", "k1")], 0),
+        ("rd-expire", [cmd("SET", "k1", A), cmd("EXPIRE", "k1", d=3), cmd("GET", "k1"), cmd("TICK", "k1", d=8), cmd("GET", "k1"), cmd("EXISTS", "k1"),
+                       cmd("SET", "k1", B), cmd("EXPIRE", "k1", d=3), cmd("PERSIST3", "k1"), cmd("TICK", "k1", d=8), cmd("GET", "k1"), cmd("DEL", "k1")], 0),
         ("rd-setnx-default-timeout", [cmd("SETNX", "k1", A), cmd("SETNX", "k1", B), cmd("GET", "k1"), cmd("DEL", "k1"), cmd("SETNX", "k1", B), cmd("GET", "k1"), cmd("DEL", "k1")], -1),
         ("rd-del-then-reuse", [cmd("SET", "k1", A), cmd("EXPIRE", "k1", d=3), cmd("DEL", "k1"), cmd("GET", "k1"), cmd("INCR", "k1"), cmd("GET", "k1"), cmd("DEL", "k1"),
                                cmd("SETNX", "k1", B), cmd("GET", "k1"), cmd("DEL", "k1")], 0),
     ]
+
+SEC_VALS = [1, 60, 65535, 65536, 100000]
+MS_VALS = [1, 999, 1000, 2999, 3000, 3001, 5000, 59999, 60000, 65535, 65536, 70000, 65535000, 65535001, 65580500, 120000000]
+
+def gen_ttl_random(seed, i):
+    """Random time-to-live history on one key: option values drawn around the unit boundaries and anywhere between."""
+    rng = random.Random((seed << 17) ^ (i * 7919) ^ 0x77)
+    def sec():
+        return rng.choice(SEC_VALS) if rng.random() < 0.5 else rng.choice([rng.randint(1, 300), rng.randint(60000, 70000), rng.randint(65536, 2000000)])
+    def ms():
+        return rng.choice(MS_VALS) if rng.random() < 0.5 else rng.choice([rng.randint(1, 3000), rng.randint(3001, 200000), rng.randint(65000000, 66000000), rng.randint(65535001, 500000000)])
+    k, v = "k1", b"a"
+    mk = rng.choice(["SET", "SET_EX", "SET_PX", "SETEX", "PSETEX"])
+    hist = [cmd(mk, k, v, sec() if mk in ("SET_EX", "SETEX") else ms() if mk in ("SET_PX", "PSETEX") else 0)]
+    for _ in range(rng.randint(1, 5)):
+        name = rng.choice(["EXPIRE", "PEXPIRE", "EXPIREAT", "PEXPIREAT", "PERSIST", "APPEND", "GET", "EXISTS", "SET", "SET_EX", "SET_PX", "SETEX", "PSETEX", "GETSET", "SET_XX"])
+        d = sec() if name in ("EXPIRE", "EXPIREAT", "SET_EX", "SETEX") else ms() if name in ("PEXPIRE", "PEXPIREAT", "SET_PX", "PSETEX") else 0
+        if name == "PEXPIREAT" and (3000 < d <= 4000 or 65535000 < d <= 65536000):
+            d += 1500       # converted against the wall clock: stay clear of the unit boundary
+        hist.append(cmd(name, k, b"b" if name in ("APPEND", "SET", "SET_EX", "SET_PX", "SETEX", "PSETEX", "GETSET", "SET_XX") else b"", d))
+    hist.append(cmd("DEL", k))
+    return hist
+
+def directed_ttl():
+    """Histories that let the virtual clock run: the key is readable until its time-to-live and not after
+    (terms above 3000 ms only - shorter millisecond terms sit on the millisecond wheel, which the virtual clock does not drive)."""
+    A = b"a"
+    out = []
+    for name, d, before, after in [("SET_PX", 5000, 3, 6), ("SET_PX", 3001, 2, 6), ("SET_PX", 70000, 68, 8), ("PSETEX", 59999, 57, 8), ("SET_EX", 60, 58, 7),
+                                   ("SETEX", 5, 3, 6), ("SET_EX", 1, 0, 6)]:
+        h = [cmd(name, "k1", A, d)]
+        if before:
+            h += [cmd("TICK", "k1", d=before), cmd("GET", "k1"), cmd("EXISTS", "k1"), cmd("STRLEN", "k1")]
+        h += [cmd("TICK", "k1", d=after), cmd("GET", "k1"), cmd("EXISTS", "k1"), cmd("STRLEN", "k1"), cmd("DEL", "k1")]
+        out.append((f"rd-ttl-{name}-{d}", h, 0))
+    for name, d, before, after in [("EXPIRE", 5, 3, 6), ("PEXPIRE", 5000, 3, 6), ("PEXPIRE", 65536, 64, 7), ("EXPIREAT", 60, 57, 9), ("PEXPIREAT", 70000, 67, 9)]:
+        h = [cmd("SET", "k1", A), cmd(name, "k1", d=d), cmd("TICK", "k1", d=before), cmd("GET", "k1"), cmd("TICK", "k1", d=after), cmd("GET", "k1"), cmd("EXISTS", "k1"), cmd("DEL", "k1")]
+        out.append((f"rd-ttl-{name}-{d}", h, 0))
+    out.append(("rd-ttl-persist", [cmd("SET_EX", "k1", A, 5), cmd("PERSIST", "k1"), cmd("TICK", "k1", d=10), cmd("GET", "k1"), cmd("DEL", "k1")], 0))
+    out.append(("rd-ttl-plain-set-clears", [cmd("SET_PX", "k1", A, 5000), cmd("SET", "k1", A), cmd("TICK", "k1", d=10), cmd("GET", "k1"), cmd("DEL", "k1")], 0))
+    out.append(("rd-ttl-append-keeps", [cmd("SET_EX", "k1", A, 5), cmd("APPEND", "k1", A), cmd("TICK", "k1", d=10), cmd("GET", "k1"), cmd("DEL", "k1")], 0))
+    # waits of SET .. NX TX / PTX on a key that exists
+    for name, d in [("SET_NX_TX", 1), ("SET_NX_TX", 5), ("SET_NX_TX", 60), ("SET_NX_PTX", 3001), ("SET_NX_PTX", 5000), ("SET_NX_PTX", 59999), ("SET_NX_PTX", 70000)]:
+        out.append((f"rd-wait-{name}-{d}", [cmd("SET", "k1", A), cmd(name, "k1", A, d), cmd("GET", "k1"), cmd("DEL", "k1"), cmd(name, "k1", A, d), cmd("GET", "k1"), cmd("DEL", "k1")], 0))
+    return out
 
 def enum(wd, name, n, cmdset, timeout):
     cfg = MC_CFG % {"n": n, "set": cmdset, "export": "TRUE", "view": "", "invs": "ExportInv", "props": ""}
@@ -119,8 +185,8 @@ def enum(wd, name, n, cmdset, timeout):
     hs = [json.loads(x) for x in set(vr.parse_tagged(r["out"], "BEHAVIOUR"))]
     return [h for h in hs if len(h) == n], r["wall"]
 
-def simulate(wd, name, n, num, seed, timeout):
-    cfg = MC_CFG % {"n": n, "set": "all", "export": "TRUE", "view": "", "invs": "ExportInv", "props": ""}
+def simulate(wd, name, n, num, seed, timeout, cmdset="all"):
+    cfg = MC_CFG % {"n": n, "set": cmdset, "export": "TRUE", "view": "", "invs": "ExportInv", "props": ""}
     r = vtlc.run_tlc(SPEC, "RedisCmdsMC", cfg, os.path.join(wd, name), workers=1, timeout=timeout, simulate=f"num={num}", depth=n + 1, seed=seed)
     import checks.valuereg as vr
     hs = vr.maximal_behaviours(vr.parse_tagged(r["out"], "BEHAVIOUR"))
@@ -163,11 +229,16 @@ def run_part(out, wd, tier, seed, binp):
     t0 = time.time()
     rng = random.Random(seed + 77)
     # design check
-    cfg = MC_CFG % {"n": 4 if quick else 5, "set": "all", "export": "FALSE", "view": "VIEW view", "invs": "TypeOK Consequently", "props": "PROPERTY Laws"}
+    cfg = MC_CFG % {"n": 4 if quick else 5, "set": "all", "export": "FALSE", "view": "VIEW view", "invs": "TypeOK Consequently NoStaleKey", "props": "PROPERTY Laws TtlLaws"}
     r = vtlc.run_tlc(SPEC, "RedisCmdsMC", cfg, os.path.join(wd, "rmc"), workers=engine.NCPU, timeout=300 if quick else 1800)
     st = vtlc.parse_stats(r["out"])
     if st is None or "No error has been found" not in r["out"]:
         raise InfraError("RedisCmdsMC exhaustive check did not complete cleanly (design model, not a verdict on the code):\n" + r["out"][-3000:])
+    cfg_t = MC_CFG % {"n": 3, "set": "ttl", "export": "FALSE", "view": "VIEW view", "invs": "TypeOK Consequently NoStaleKey", "props": "PROPERTY Laws TtlLaws"}
+    r_t = vtlc.run_tlc(SPEC, "RedisCmdsMC", cfg_t, os.path.join(wd, "rmc_ttl"), workers=engine.NCPU, timeout=300 if quick else 1800)
+    st_t = vtlc.parse_stats(r_t["out"])
+    if st_t is None or "No error has been found" not in r_t["out"]:
+        raise InfraError("RedisCmdsMC (ttl alphabet) exhaustive check did not complete cleanly (design model, not a verdict on the code):\n" + r_t["out"][-3000:])
     # behaviours
     scs, idx = [], [0]
     def add(name, hist, timeout=0):
@@ -198,8 +269,24 @@ def run_part(out, wd, tier, seed, binp):
         add(f"rrnd-{seed}-{i}", gen_random(seed, i, dev=False))
     for i in range(nr // 4):
         add(f"rrnddev-{seed}-{i}", gen_random(seed, i, dev=True))
-    for name, hist, tmo in directed():
+    for name, hist, tmo in directed() + directed_ttl():
         add(name, hist, tmo)
+    # time-to-live conversions: every pair of the boundary-value alphabet (complete), longer walks sampled
+    hs4, w4 = enum(wd, "renum_ttl", 2, "ttl", 600 if quick else 1800)
+    for i, h in enumerate(hs4):
+        add(f"renum-ttl-{i}", h)
+    # longer walks of the model: thorough tier only (the quick tier covers them with the seeded histories below)
+    hs5 = []
+    if not quick:
+        nsim_t = 20000
+        hs5 = simulate(wd, "rsim_ttl", 4, nsim_t // 40, seed, 900, cmdset="ttl")
+        rng.shuffle(hs5)
+        hs5 = hs5[:nsim_t]
+    for i, h in enumerate(hs5):
+        add(f"rsim-ttl-{seed}-{i}", h)
+    nrt = 500 if quick else 8000
+    for i in range(nrt):
+        add(f"rrnd-ttl-{seed}-{i}", gen_ttl_random(seed, i))
     scs.sort(key=lambda s: s["timeout"])       # the driver switches the connection timeout between scenarios
     nshards = max(engine.NCPU, -(-len(scs) // 3000))       # short-lived driver processes, see checks/valuereg.py
     res = engine.run_harness(binp, "TestVerifRedis", scs, os.path.join(wd, "rrun"), tag="r", nshards=nshards, timeout=3000)
@@ -223,8 +310,12 @@ def run_part(out, wd, tier, seed, binp):
                   "invariants": ["TypeOK", "Consequently (register read back = plain store)", "Laws"],
                   "states": st["distinct"], "transitions": st["generated"], "wall_s": round(r["wall"], 1)},
         "tlc_enumerations": [{"alphabet": "rw (SET GET DEL APPEND INCR DECR INCRBY DECRBY, 2 keys)", "commands": 3 if quick else 4, "behaviours": n_rw, "replayed": len(hs)},
-                             {"alphabet": "all 31 commands", "commands": 2 if quick else 3, "behaviours": n_all, "replayed": len(hs2)}],
-        "tlc_simulated_behaviours": len(hs3), "random_histories": nr + nr // 4, "directed_histories": len(directed()),
+                             {"alphabet": "all 31 commands", "commands": 2 if quick else 3, "behaviours": n_all, "replayed": len(hs2)},
+                             {"alphabet": "ttl (one key: SET [EX|PX|NX|XX], SETEX, PSETEX, EXPIRE, PEXPIRE, EXPIREAT, PEXPIREAT, PERSIST, APPEND, GETSET, reads, TICK; "
+                                          "5 second values and 16 millisecond values around the unit boundaries)", "commands": 2, "behaviours": len(hs4), "replayed": len(hs4)}],
+        "ttl": {"model_states": st_t["distinct"], "model_transitions": st_t["generated"], "simulated": len(hs5), "random": nrt, "directed": len(directed_ttl()),
+                "deadlines_judged": mst.get("ttl_judged", 0)},
+        "tlc_simulated_behaviours": len(hs3), "random_histories": nr + nr // 4, "directed_histories": len(directed()) + len(directed_ttl()),
         "histories": len(scs), "distinct": len({json.dumps([(c["c"], c["k"], c["v"], c["d"]) for c in s["cmds"]]) for s in scs}),
         "monitor": {"module": "spec/mon/MonRedis.tla", "events": mst["events"], "monitor_states": mst["monitor_states"], "commands_judged": mst["ops"],
                     "open_cases": mst["agnostic"], "wall_s": mst["wall_s"]},
